@@ -150,7 +150,7 @@ def run_go_functions(rep, spec, contracts, word=64, natives=(), extra_pkgs=(), v
             rep.assumed |= v.assumed
             rep.inlined |= v.inlined
             rep.lemmas |= getattr(v, 'used_lemmas', set())
-        except (Unsupported, speclang.SpecError, KeyError, RecursionError) as ex:
+        except (Unsupported, speclang.SpecError, KeyError, RecursionError, z3.Z3Exception, AttributeError, TypeError, IndexError) as ex:
             if verbose:
                 traceback.print_exc()
             rep.undecided.append((c.key, '%s: %s' % (type(ex).__name__, ex)))
@@ -185,7 +185,7 @@ def run_js_functions(rep, spec, contracts, verbose=False):
             out += v.obls
             rep.assumed |= v.assumed
             rep.lemmas |= getattr(v, 'used_lemmas', set())
-        except (Unsupported, speclang.SpecError, KeyError, RecursionError) as ex:
+        except (Unsupported, speclang.SpecError, KeyError, RecursionError, z3.Z3Exception, AttributeError, TypeError, IndexError) as ex:
             if verbose:
                 traceback.print_exc()
             rep.undecided.append(('js ' + c.key, '%s: %s' % (type(ex).__name__, ex)))
